@@ -437,6 +437,39 @@ inline R hsum(const Poly &p, const R &h) {  // sum_j p_j h^j
   return r;
 }
 
+// abs-domain operations (midpoint coordinates, all numbers non-negative)
+inline AbsM absAdd(const AbsM &a, const AbsM &b) {
+  AbsM r(a.size());
+  for (size_t k = 0; k < a.size(); k++) r[k] = model::padd(a[k], b[k]);
+  return r;
+}
+inline AbsM absMul(const AbsM &a, const AbsM &b) {
+  AbsM r(a.size());
+  for (size_t k = 0; k < a.size(); k++) r[k] = model::pmul(a[k], b[k]);
+  return r;
+}
+inline AbsM absScale(const AbsM &a, const R &c) {
+  AbsM r(a.size());
+  for (size_t k = 0; k < a.size(); k++) r[k] = model::pscale(a[k], rabs(c));
+  return r;
+}
+inline AbsM absDeriv(const AbsM &a, size_t n) {
+  AbsM r(a.size());
+  for (size_t k = 0; k < a.size(); k++) r[k] = model::pderiv(a[k], n);
+  return r;
+}
+// x^n = (u + xm)^n -> (u + |xm|)^n
+inline AbsM absMulX(const AbsM &a, size_t n, const std::vector<R> &grid) {
+  AbsM r(a.size());
+  for (size_t k = 0; k < a.size(); k++) {
+    const R xm = rabs((grid[k] + grid[k + 1]) / 2);
+    Poly f{R(1)};
+    for (size_t i = 0; i < n; i++) f = model::pmul(f, Poly{xm, R(1)});
+    r[k] = model::pmul(a[k], f);
+  }
+  return r;
+}
+
 constexpr double C16_FACTOR = 1048576.0;  // 2^20, fixed by the property
 
 struct Verdict {
